@@ -70,10 +70,12 @@ def _cond_summary(conds, field):
     return out
 
 
-def rule_R1(ctx):
+def rule_R1(ctx, only=None):
     P = ctx.program
     ngrow = 0
     for owner, field, paths in STATE:
+        if only and owner not in only:
+            continue
         for path in paths:
             try:
                 b = P.body(path)
@@ -139,7 +141,9 @@ def rule_R1(ctx):
                                  "after appending to %s.%s the function can return under [%s] without a length bound, without clearing the container and without "
                                  "reaching a terminal state: retained bytes grow with every further segment of the connection" % (owner, field, ", ".join(summ) or "no condition"),
                                  ctx.loc(b, r))
-    ctx.floor("R1", "growth sites on per-connection state", ngrow, 3)
+    ctx.floor("R1", "growth sites on per-connection state", ngrow, 3 if not only else 1)
+    if only:
+        return
     # caches constructed with the configured capacity
     n = 0
     for b in P.bodies.values():
